@@ -1,2 +1,83 @@
-/- C13 — property theorems (being extended); the reader model these will be about: -/
-import E57.Model.Simple
+/-
+C13 — Normalised colour and intensity lie in [0,1], are monotone, never NaN.
+
+The arithmetic theorems are proved in E57/Proofs/Normalise.lean for EVERY float carrier `F`
+satisfying the IEEE-754 facts bundled in `IEEELike F` (monotone rounding that fixes representable
+numbers, correctly rounded `*`, `-`, `/` with no spurious overflow, gradual underflow, a monotone
+f64→f32 cast; a consistency witness on exact rationals is given there).  They are hypotheses of
+the theorems, not axioms.  The executable model instantiates the same definitions
+(`RangeG.fromMinMax`, `RangeG.normalize`) at the native `Float`, and the `reader` correspondence
+suite compares its results bit for bit with the crate.  This file adds the facts about which
+range is used and about disabled normalisation, and restates the main results.
+-/
+import E57.Proofs.Normalise
+namespace E57.C13
+open E57 FloatOps IEEELike
+
+variable {F : Type} [FloatOps F] [IEEELike F]
+
+/-- **[0,1], never NaN or infinite**: for any bounds whatsoever (finite, reversed, equal, NaN,
+    infinite) and any finite stored value, the delivered f32 is a number in the unit interval -/
+theorem unit_interval (min max : F) {v : F} {vv : ℚ} (hv : val v = some vv) :
+    ∃ q : ℚ, val32 F ((RangeG.fromMinMax min max).normalize v) = some q ∧ 0 ≤ q ∧ q ≤ 1 :=
+  C13_total min max hv
+
+/-- **monotone** in the stored value -/
+theorem monotone {min max v v' : F} {vv vv' : ℚ} (hnd : NonDegenerate min max)
+    (hv : val v = some vv) (hv' : val v' = some vv') (hle : vv ≤ vv') :
+    ∃ q q' : ℚ, val32 F ((RangeG.fromMinMax min max).normalize v) = some q ∧
+      val32 F ((RangeG.fromMinMax min max).normalize v') = some q' ∧ q ≤ q' :=
+  C13_monotone_bits hnd hv hv' hle
+
+/-- **0 at the minimum, 1 at the maximum**, for all finite `min < max` -/
+theorem endpoints {min max : F} {vmin vmax : ℚ} (hmin : val min = some vmin) (hmax : val max = some vmax)
+    (hlt : vmin < vmax) :
+    val32 F ((RangeG.fromMinMax min max).normalize min) = some 0 ∧
+    val32 F ((RangeG.fromMinMax min max).normalize max) = some 1 :=
+  C13_endpoints_all_bits hmin hmax hlt
+
+/-- **degenerate range yields 0** (equal or reversed finite bounds) -/
+theorem degenerate {min max : F} {vmin vmax : ℚ} (hmin : val min = some vmin) (hmax : val max = some vmax)
+    (hdeg : ¬ vmin < vmax) (v : F) : (RangeG.fromMinMax min max).normalize v = 0 :=
+  C13_degenerate hmin hmax hdeg v
+
+/-- … and so does a NaN or infinite bound -/
+theorem degenerate_nonfinite {min max : F} (h : val min = none ∨ val max = none) (v : F) :
+    (RangeG.fromMinMax min max).normalize v = 0 := C13_degenerate_nonfinite h v
+
+/-- **the value is the clamped ratio** up to the roundings of the three operations; with exact
+    arithmetic it is exactly `clamp((v − min)/(max − min), 0, 1)` -/
+theorem formula_exact (hid : rnd F = id) {min max v : F} {vmin vmax vv : ℚ}
+    (hmin : val min = some vmin) (hmax : val max = some vmax) (hv : val v = some vv) (hlt : vmin < vmax) :
+    val ((RangeG.fromMinMax min max).normalizeF v) = some (qclamp ((vv - vmin) / (vmax - vmin)) 0 1) := by
+  have hnd := C13_nondegenerate_of_lt hmin hmax hlt
+  have := C13_formula_exact hid hnd hmin hmax hv
+  rw [this.1, this.2]
+
+/-! ### which range is used; disabled normalisation (facts about the model's own definitions) -/
+
+/-- limits are used when both are present and of one numeric kind (double, single or integer) -/
+theorem range_from_limits_double (a b : UInt64) (p : Prototype) (n : RecordName) :
+    (rangeFor (some (some (.double a), some (.double b))) p n).isSome = true := by
+  simp [rangeFor, Range.fromLimits]
+
+/-- without usable limits the range of the attribute's data type is used; no attribute, no range -/
+theorem range_falls_back_to_type (p : Prototype) (n : RecordName) :
+    (rangeFor none p n).isSome = (p.find? (fun r => r.name == n)).isSome := by
+  simp [rangeFor]
+
+/-- mismatched limit kinds are ignored (fall back to the data type) -/
+theorem range_mismatched_limits (i : Int) (b : UInt64) (p : Prototype) (n : RecordName) :
+    rangeFor (some (some (.integer i), some (.double b))) p n = rangeFor none p n := by
+  simp [rangeFor, Range.fromLimits]
+
+/-- with normalisation disabled the stored value is delivered unchanged as a 32-bit float -/
+theorem disabled_is_cast (v : UInt64) (r : Option Range) :
+    normalizeValue false v r = (Float.ofBits v).toFloat32.toBits := by
+  simp [normalizeValue]
+
+/-- with normalisation enabled and no range the result is 0 -/
+theorem enabled_without_range (v : UInt64) : normalizeValue true v none = 0 := by
+  simp [normalizeValue]
+
+end E57.C13
